@@ -65,6 +65,24 @@ CHECKS.update({
          "DESIGN.md §4 C03"),
 })
 
+CHECKS.update({
+ "C04": ("E1-choice-tree",
+         "per-rule exhaustive small-scope families and all ordered pairs of (well-formed + single-rule-violating) constructs compiled by the real compiler against an independent reference validator over the model",
+         "For every rule of the statement a complete small-scope family is enumerated (tag/optional assignments over <= 3 members in 6 containers, enumerator values at every primitive's boundaries, every key type in 6 dictionary positions, every stream placement, every duplicate-name placement, every known attribute x target x argument list x repetition, malformed literals) plus all ordered pairs drawn from 40 well-formed and 30 violating constructs; the reference checker decides well-formedness and the set of codes belonging to violated rules; accepted iff well-formed, and every reported error code must belong to a violated rule.",
+         "trusted: the rule catalogue in mc/src/model/rules.rs (written from the statement); phase gating means equality of the reported and violated sets is not demanded",
+         "DESIGN.md §4 C04"),
+ "C07": ("E3-process",
+         "complete product of process-level scenarios of the real slicec binary with logging fake generators",
+         "Program class (13, one error of each phase / warnings only / clean) x position of the offending file x 0..3 generators x --dry-run x -A x -O x output format, plus runs with exactly one failing generator: generators are started iff no Error was produced and --dry-run is off; no file appears unless generators ran; exit status != 0 iff an error line was emitted. Complete product, same in both tiers.",
+         "trusted: mc/src/proc.rs (scenario runner) and fakegen; the binary is built from /repo/slicec/src/main.rs as a bin target of the harness",
+         "DESIGN.md §4 C07"),
+ "C18": ("E3-process",
+         "exhaustive enumeration of generator fault sequences (behaviour catalogue^1..3, every truncation of a valid reply, output-directory states, payload sizes, one delay deviation) against the real slicec binary",
+         "1..3 scripted fake generators per run, each drawn from a 24-row behaviour catalogue (cannot start, exit codes, signals, stderr, stdin not read / half read, empty / truncated-at-every-byte / undecodable replies, nested and absolute output paths) x 8 output-directory states x small/large request x at most one 50 ms delay point: slicec must end without crash or hang, report exactly the failing generators by path, start all generators with the identical request followed by their own arguments, exit non-zero iff something failed, write files only from decoded replies below the output directory and leave identical files untouched.",
+         "trusted: mc/src/proc.rs and fakegen; OS scheduling between slicec and its children is approximated by scripted delay points; 'not writable' is represented by 'is a regular file' because the harness runs as root; softenings SOFT-1..6 are listed in mc/src/props/c18.rs",
+         "DESIGN.md §4 C18"),
+})
+
 NOT_YET = {}
 
 def main():
